@@ -27,9 +27,9 @@ CONSTS = {"MaxStreams": 9, "NDatasets": 2, "MaxPending": 3, "CleanInPlace": "FAL
 
 PLANS = {
     # focus, exhaustive history length, cap on exhaustive histories, (#random walks, depth), MC bound
-    "C11": {"quick": ("imm", 4, 6000, (1500, 8), 5), "thorough": ("imm", 5, 120000, (30000, 10), 6)},
-    "C12": {"quick": ("exec", 4, 6000, (1500, 9), 5), "thorough": ("exec", 5, 120000, (30000, 12), 5)},
-    "C16": {"quick": ("qmd", 3, 6000, (1500, 8), 4), "thorough": ("qmd", 5, 120000, (30000, 10), 6)},
+    "C11": {"quick": ("imm", 4, 6000, (1500, 8), 5), "thorough": ("imm", 4, 120000, (30000, 10), 5)},
+    "C12": {"quick": ("exec", 4, 6000, (1500, 9), 5), "thorough": ("exec", 4, 120000, (30000, 12), 5)},
+    "C16": {"quick": ("qmd", 3, 6000, (1500, 8), 4), "thorough": ("qmd", 4, 120000, (30000, 10), 5)},
 }
 
 
